@@ -29,7 +29,7 @@
 (* FOUR SCHEMES over the same steps (what the three code paths return):    *)
 (*   FnPath   fn:path(n)                                                   *)
 (*   DocPath  node.path: "/" + steps from the (real or implied) document;  *)
-(*            sound for R1, R2, R4; NOT sound for a fragment (R3), where   *)
+(*            sound for R1, R2, R4, R5; NOT sound for a fragment (R3), where   *)
 (*            "/" is the parentless element -- that is why fn:path has    *)
 (*            the root() form (invariant FragmentNeedsRootFn)              *)
 (*   RelPath  etree_iter_paths(root): "." + steps below the root element   *)
@@ -62,7 +62,7 @@ PosStr(k) == <<"1", "2", "3", "4", "5", "6", "7", "8", "9">>[k]
 ---------------------------------------------------------------------------
 (* Definitional side *)
 KindClass(k) == IF k \in ElemK THEN "elem" ELSE IF k \in AttrK THEN "attr" ELSE IF k \in PIK THEN "pi"
-                ELSE IF k = "t" THEN "text" ELSE "comment"
+                ELSE IF k \in TextK THEN "text" ELSE "comment"
 
 LikeNamed(m, n) ==     \* same node kind and, where the kind has one, the same (expanded) name
   /\ KindClass(kind[m]) = KindClass(kind[n])
@@ -77,17 +77,17 @@ StepOf(n) ==
     CASE k \in ElemK -> [ax |-> "child", k |-> "elem", ns |-> NsOf(k), nm |-> LocalOf(k), pos |-> PosOf(n)]
       [] k \in AttrK -> [ax |-> "attribute", k |-> "attr", ns |-> NsOf(k), nm |-> LocalOf(k), pos |-> 0]
       [] k \in PIK   -> [ax |-> "child", k |-> "pi", ns |-> "", nm |-> TargetOf(k), pos |-> PosOf(n)]
-      [] k = "t"     -> [ax |-> "child", k |-> "text", ns |-> "", nm |-> "", pos |-> PosOf(n)]
+      [] k \in TextK -> [ax |-> "child", k |-> "text", ns |-> "", nm |-> "", pos |-> PosOf(n)]
       [] k = "c"     -> [ax |-> "child", k |-> "comment", ns |-> "", nm |-> "", pos |-> PosOf(n)]
 
 RECURSIVE StepsTo(_)
 StepsTo(n) == IF n = 0 THEN <<>> ELSE StepsTo(ParentX(n)) \o <<StepOf(n)>>
 
 NA == [start |-> "none", steps |-> <<>>]
-FnPath(n)  == IF RootCfg = "R1" THEN [start |-> "/", steps |-> StepsTo(n)]
+FnPath(n)  == IF HasDocX THEN [start |-> "/", steps |-> StepsTo(n)]
               ELSE [start |-> "root()", steps |-> Tail(StepsTo(n))]
 DocPath(n) == [start |-> "/", steps |-> StepsTo(n)]
-UnderRoot(n) == RootCfg # "R4" /\ n # 0 /\ TopAnc(n) = RootElem
+UnderRoot(n) == RootCfg \notin {"R4", "R5"} /\ n # 0 /\ TopAnc(n) = RootElem
 RelPath(n)  == IF UnderRoot(n) THEN [start |-> ".", steps |-> Tail(StepsTo(n))] ELSE NA
 FragPath(n) == IF RootCfg = "R3" /\ n # 1    \* "/" alone is the caller's argument, and undefined for a parentless root
               THEN [start |-> "/", steps |-> Tail(StepsTo(n))] ELSE NA
@@ -146,7 +146,7 @@ IterPos(n) ==
 
 ---------------------------------------------------------------------------
 (* State machine *)
-Start == IF RootCfg = "R1" THEN 0 ELSE 1
+Start == IF HasDocX THEN 0 ELSE 1
 
 Init == /\ TreeInitX
         /\ cur = Start
@@ -180,7 +180,7 @@ Covered == \A m \in Below(cur) : Sel(cur, StepOf(m)) = {m}
 
 SoundFn   == Eval(FnPath(cur)) = {cur}
 SoundDoc  == RootCfg # "R3" => Eval(DocPath(cur)) = {cur}
-SoundRel  == (RootCfg # "R4" /\ UnderRoot(cur)) => Eval(RelPath(cur)) = {cur}
+SoundRel  == UnderRoot(cur) => Eval(RelPath(cur)) = {cur}
 SoundFrag == (RootCfg = "R3" /\ cur # 1) => Eval(FragPath(cur)) = {cur}
 FragmentNeedsRootFn == RootCfg = "R3" => Eval(DocPath(1)) # {1}
 
